@@ -329,6 +329,14 @@ def gen_history(rng, cfg=None):
                     if not u_.get('reuse') and 'wm_of' not in u_:
                         u_['watermark'] = rng.choice([0, 1, 40])
                         u_['force'] = True
+    # the targeted steps above may have changed the options of a round after a later round copied them for its reused
+    # loader: a reused loader has the constructor options of the round that created it
+    for i_ in range(1, len(rounds)):
+        if rounds[i_]['update'].get('reuse'):
+            for k in ('hashes', 'sort', 'watermark', 'format', 'profile'):
+                rounds[i_]['update'].pop(k, None)
+                if k in rounds[i_ - 1]['update']:
+                    rounds[i_]['update'][k] = rounds[i_ - 1]['update'][k]
     return {'order_key': '%016x' % rng.getrandbits(64), 'top': 'Manifest', 'tree': tree,
             'chunks': rng.choice([None, None, None, 'mixed', 'tiny', 4096]),
             'manifests': manifests, 'rounds': rounds}
